@@ -128,6 +128,50 @@ def check(case, stats: Stats) -> None:
         _check_on(conv, case, stats, how, False)
 
 
+# ------------------------------------------------------------------------------------------------ converters that come out of loaders
+@st.composite
+def loader_cases(draw, tier="quick"):
+    d = draw(S.delimiters())
+    n = draw(st.integers(1, 4))
+    ps = draw(st.lists(st.sampled_from([x for x in ["a", "b", "A", "ab", "x1", "a_b", "é", ""] if d not in x]), unique=True, min_size=n, max_size=n))
+    us = draw(S.url_pool(n, n))
+    return {"delimiter": d, "pairs": [[p, u] for p, u in zip(ps, us)], "identifiers": [draw(S.identifiers(d)) for _ in range(3)]}
+
+
+def check_loaders(case, stats: Stats) -> None:
+    """The converter's delimiter is a constructor argument that every loader forwards (`**kwargs`): whichever loader a
+    converter with a non-default delimiter came out of, expand must split at THAT delimiter."""
+    import rdflib
+
+    d, pairs = case["delimiter"], case["pairs"]
+    pm = {p: u for p, u in pairs}
+    g = rdflib.Graph(bind_namespaces="none")
+    for p, u in pairs:
+        g.bind(p, rdflib.Namespace(u))
+    listed = {str(p): str(ns) for p, ns in g.namespaces()}
+    convs = {
+        "from_prefix_map": (curies.Converter.from_prefix_map(pm, delimiter=d), pm),
+        "from_priority_prefix_map": (curies.Converter.from_priority_prefix_map({p: [u] for p, u in pairs}, delimiter=d), pm),
+        "from_reverse_prefix_map": (curies.Converter.from_reverse_prefix_map({u: p for p, u in pairs}, delimiter=d), pm),
+        "from_extended_prefix_map": (curies.Converter.from_extended_prefix_map([{"prefix": p, "uri_prefix": u} for p, u in pairs], delimiter=d), pm),
+        "from_jsonld": (curies.Converter.from_jsonld({"@context": {p: u for p, u in pairs if p}}, delimiter=d), {p: u for p, u in pairs if p}),
+        "from_rdflib": (curies.Converter.from_rdflib(g, delimiter=d), listed),
+        "load_prefix_map": (curies.load_prefix_map(pm, delimiter=d), pm),
+    }
+    for how, (conv, denoted) in convs.items():
+        for p, u in denoted.items():
+            for i in case["identifiers"]:
+                stats.ev()
+                got = conv.expand(p + d + i)
+                if got != u + i:
+                    raise Violation(f"[{how}(..., delimiter={d!r})] expand({p + d + i!r}) = {got!r}, expected {u + i!r}")
+                if conv.expand_pair(p, i) != u + i:
+                    raise Violation(f"[{how}(..., delimiter={d!r})] expand_pair({p!r}, {i!r}) = {conv.expand_pair(p, i)!r}, expected {u + i!r}")
+    stats.cls("loaders:delimiter=" + ("default" if d == ":" else "other"))
+    if d != ":":
+        stats.nontrivial(case, "loader-with-non-default-delimiter")
+
+
 SUBS = [
     Sub(
         name="expand",
@@ -135,5 +179,7 @@ SUBS = [
         strategy=lambda tier: cases(tier),
         n={"quick": 1500, "thorough": 4000},
         required_classes=("nt:synonym", "nt:empty-prefix-known", "nt:identifier-contains-delimiter", "unknown-prefix"),
-    )
+    ),
+    Sub(name="loaders", check=check_loaders, strategy=lambda tier: loader_cases(tier), n={"quick": 250, "thorough": 800},
+        required_classes=("loaders:delimiter=default", "loaders:delimiter=other")),
 ]
